@@ -45,9 +45,13 @@ def gen_case(rng, tier):
     prof["pick"] = 0.5 if handover else 0  # a conditional hands one of two local buffers on as its result
     if handover:
         prof["w_for"], prof["w_if"], prof["max_depth"] = max(prof["w_for"], 2), max(prof["w_if"], 1), max(prof["max_depth"], 1)
+    if variant in "CD" and rng.random() < 0.5:
+        prof["pick"] = 0.7  # also with static allocation: the picked buffer's address may be handed out again later
+        prof["retire_picked"] = True
+        prof["w_if"], prof["max_depth"] = max(prof["w_if"], 2), max(prof["max_depth"], 1)
     if variant in "CD":
         # static allocation: buffers allocated late / freed early so that the allocator hands the same address out twice
-        prof.update(streams=False, multiblock=False, late_allocs=True, n_allocs=rng.choice([3, 4, 5]), p_dealloc=rng.choice([0.0, 0.0, 0.4]))
+        prof.update(streams=False, multiblock=False, late_allocs=True, n_allocs=rng.choice([5, 6, 7] if prof.get("retire_picked") else [3, 4, 5]), p_dealloc=rng.choice([0.0, 0.0, 0.4]))
         prof["top_stmts"] = rng.randint(3, 8)
     ast = B.BufGen(rng, prof).program()
     envs = [B.gen_env(rng, zero_trips=prof["zero_trips"]) for _ in range(K_ENVS[tier])]
